@@ -82,6 +82,9 @@ def leg_shards(pid, spec, leg, tier, seed, nshards_override=None):
             c += ["--max-ms", str(leg["max_ms"][0 if tier == "quick" else 1])]
         if leg.get("scale"):
             c += ["--scale", str(leg["scale"])]
+        kk = [k for f in common.load_known() if f.get("status") == "known" and f.get("property") == pid for k in f.get("kinds", [])]
+        if kk:
+            c += ["--known", ",".join(kk)]
         c += leg.get("args", [])
         cmds.append(c)
         outs.append(o)
